@@ -28,6 +28,11 @@ type deferred struct {
 type loopFrame struct {
 	hdr  *ssa.BasicBlock
 	decr *Term // value of the decreases measure at the loop head
+	// loop-level modifies clause: the arrays it restricts, their values at the loop head (after the
+	// havoc) and the addresses the body may change; checked at the back edge
+	modHead    map[string]*Term
+	modAllowed map[string][]*Term
+	modTop     *Term
 }
 
 type State struct {
